@@ -10,7 +10,7 @@ Key grammar
                      set_data(<falsy>) is an excluded argument class)
     t:<n>#<j>        j-th instance of the tuple (n, "t")  (equal, distinct objects)
     d:<n>#<j>        j-th instance of the frozen dataclass FPerson("p<n>", n)
-    w:<n>            DictWrapper around its own dict {"k": n}   (identity hashed)
+    w:<n>            DictWrapper around its own dict {"val": n}   (identity hashed)
     o:<n>            Obj(guid="g<n>", label="o<n>")  (identity hashed unless the
                      tree has the guid hook, then data_id == "g<n>")
     u:<n>            native dict {"guid": "gu<n>", "u": n}: unhashable, usable only with
@@ -105,7 +105,7 @@ class Pool:
             n, _, _j = rest.partition("#")
             return FPerson("p" + n, int(n))
         if flavour == "w":
-            return self._nt.DictWrapper({"k": int(rest)})
+            return self._nt.DictWrapper({"val": int(rest)})
         if flavour == "o":
             return Obj("g" + rest, "o" + rest)
         if flavour == "u":
@@ -135,7 +135,7 @@ def encode_value(obj) -> dict:
     if isinstance(obj, Obj):
         return {"type": "obj", "guid": obj.guid, "name": obj.label}
     if obj.__class__.__name__ == "DictWrapper":
-        return {"type": "wrap", "v": obj._dict["k"]}
+        return {"type": "wrap", "v": obj._dict["val"]}
     if isinstance(obj, dict):
         return {"type": "udict", "guid": obj["guid"], "v": obj["u"]}
     if obj.__class__.__name__ == "FileSystemEntry":
@@ -164,7 +164,7 @@ def decode_value(d: dict, nutree_mod):
     if t == "obj":
         return Obj(d["guid"], d["name"])
     if t == "wrap":
-        return nutree_mod.DictWrapper({"k": int(d["v"])})
+        return nutree_mod.DictWrapper({"val": int(d["v"])})
     if t == "udict":
         return {"guid": d["guid"], "u": int(d["v"])}
     raise TypeError(t)
